@@ -405,6 +405,7 @@ type Acc struct {
 	bodyIncl map[string]bool
 	Schema   []string
 	Uninst   []string
+	UninstErr string
 }
 
 func NewAcc(cl CaseLine) *Acc {
@@ -467,7 +468,7 @@ func (a *Acc) Result(crdsFirst []string) ObsLine {
 	o := Obs{Runs: a.Runs, DManifest: len(a.body), DHooks: len(a.hooks), DNotes: len(a.notes), DCrds: len(a.crd),
 		DEngine: len(a.eng), DErr: len(a.errs), DErrText: len(a.errTexts), ReuseSame: a.reuseDiff == "", RouteSame: a.routeDiff == "",
 		ReuseDiff: a.reuseDiff, RouteDiff: a.routeDiff, Manifest: []ManEntry{}, Hooks: []HookEntry{}, Crds: []string{}, Engine: []int{},
-		NotesSeen: []string{}, CrdsSeen: [][]string{}, Schema: a.Schema, Uninst: a.Uninst, Err: "none"}
+		NotesSeen: []string{}, CrdsSeen: [][]string{}, Schema: a.Schema, Uninst: a.Uninst, UninstErr: a.UninstErr, Err: "none"}
 	if a.First != nil {
 		f := a.First
 		o.Err, o.ErrText, o.Notes, o.ErrAt = f.Err, f.ErrText, f.Notes, f.ErrAt
